@@ -143,6 +143,9 @@ func coqPMeta(m gocql.VerifC04Meta) string {
 	return fmt.Sprintf("(Build_pmeta %s %s %s %s)", coqRMeta(m), hlib.ZListI(pk), CoqStr(m.Keyspace), CoqStr(m.Table))
 }
 
+// CoqBytesOrNil: a Go []byte as the model's option bytes (nil = None).
+func CoqBytesOrNil(b []byte) string { return coqBytesOrNil(b) }
+
 func coqBytesOrNil(b []byte) string {
 	if b == nil {
 		return "None"
